@@ -476,9 +476,9 @@ def make_env(kind, psi, spec):
     if kind == "bp":
         env = fpeps.EnvBP(psi)
         info = env.iterate_(max_sweeps=40, diff_tol=1e-13)
-        if not info.converged:
-            return None, "bp-not-converged"
-        return env, None
+        # on a loop-free bond graph the messages are exact after (diameter + 1) sweeps whatever the convergence flag says:
+        # a run that does not report convergence is still measured (a wrong value is then an oracle failure)
+        return env, (None if info.converged else "bp-flag-not-converged")
     raise ValueError(kind)
 
 
@@ -603,36 +603,56 @@ def plan_probes(rng, fam, kind, spec, Nx, Ny, quick, recipe=None):
         pr = rng.choice(["corner <=", "row <="]) if big else rng.choice(["<=", "<=", "<", "row <=", "corner <="])
         probes.append({"fn": "measure_2site", "ops": pick_pair(), "dirn": dirn, "pairs": pr})
     # n-site
-    n_ns = (2 if quick else 4) if Nx * Ny >= 4 else 2
+    odd_names = [nm for nm in sorted(fam.opt) if fam.odd(nm)]
+
+    def word_on(pool, k, distinct):
+        """k operators on sites of `pool`: (mostly) odd neutral words, optionally on pairwise distinct sites"""
+        word = neutral_word(rng, fam, k)
+        if odd_names and rng.random() < 0.8:
+            for _ in range(50):
+                w2 = [rng.choice(odd_names) for _ in range(k)]
+                if fam.neutral(w2):
+                    word = w2
+                    break
+        if distinct and len(pool) >= k:
+            ss = rng.sample(pool, k)
+        else:
+            ss = [rng.choice(pool) for _ in range(k)]
+        return word, [list(x) for x in ss]
+
+    n_ns = (3 if quick else 6) if Nx * Ny >= 4 else 2
     if has_lr:
-        for _ in range(n_ns):
+        for i in range(n_ns):
             k = rng.choice([2, 2, 3, 4]) if Nx * Ny >= 3 else rng.choice([2, 3])
-            word = neutral_word(rng, fam, k)
-            if rng.random() < 0.15:
-                word[rng.randrange(k)] = "I" if fam.neutral([w for i, w in enumerate(word)]) and False else word[0]
-                word = neutral_word(rng, fam, k)
-            ss = [list(rng.choice(sites)) for _ in range(k)]
+            word, ss = word_on(sites, k, distinct=(i % 2 == 0))
             probes.append({"fn": "measure_nsite", "ops": word, "sites": ss})
         probes.append({"fn": "measure_nsite", "ops": ["I", "I"], "sites": [list(rng.choice(sites)), list(rng.choice(sites))]})
     if kind == "ctm":
         # exact windows of CTM
         if Nx >= 2 and Ny >= 2:
-            x0, y0 = rng.randrange(Nx - 1), rng.randrange(Ny - 1)
-            win = [(x0, y0), (x0 + 1, y0), (x0, y0 + 1), (x0 + 1, y0 + 1)]
-            k = rng.choice([2, 3, 4])
-            probes.append({"fn": "measure_2x2", "ops": neutral_word(rng, fam, k), "sites": [list(rng.choice(win)) for _ in range(k)]})
-        x, y = rng.randrange(Nx), rng.randrange(Ny)
-        line = [s for s in sites if s[0] == x] if rng.random() < 0.5 else [s for s in sites if s[1] == y]
-        if len(line) < 2:
-            line = [s for s in sites if s[0] == x] if Ny >= 2 else [s for s in sites if s[1] == y]
-        if len(line) >= 2:
-            k = rng.choice([2, 3])
-            probes.append({"fn": "measure_line", "ops": neutral_word(rng, fam, k), "sites": [list(rng.choice(line)) for _ in range(k)]})
-        if Nx >= 2 and Ny >= 2:
             # (on 1xN / Nx1 lattices measure_nsite_exact / measure_2x2 enlarge the window beyond the lattice and raise
             # KeyError: there is no 2x2 window; outside the domain probed here)
-            k = rng.choice([2, 3, 4])
-            probes.append({"fn": "measure_nsite_exact", "ops": neutral_word(rng, fam, k), "sites": [list(rng.choice(sites)) for _ in range(k)]})
+            for _ in range(2 if quick else 3):
+                x0, y0 = rng.randrange(Nx - 1), rng.randrange(Ny - 1)
+                win = [(x0, y0), (x0 + 1, y0), (x0, y0 + 1), (x0 + 1, y0 + 1)]
+                for k, distinct in ((2, True), (4, True), (rng.choice([2, 3, 4]), False)):
+                    word, ss = word_on(win, k, distinct)
+                    probes.append({"fn": "measure_2x2", "ops": word, "sites": ss})
+            for i in range(2 if quick else 4):
+                k = rng.choice([2, 3, 4])
+                word, ss = word_on(sites, k, distinct=(i % 2 == 0))
+                probes.append({"fn": "measure_nsite_exact", "ops": word, "sites": ss})
+        lines = []
+        if Nx >= 2:
+            y = rng.randrange(Ny)
+            lines.append([s for s in sites if s[1] == y])     # vertical line (one column)
+        if Ny >= 2:
+            x = rng.randrange(Nx)
+            lines.append([s for s in sites if s[0] == x])     # horizontal line (one row)
+        for line in lines:
+            for k, distinct in ((2, True), (min(3, len(line)), True), (rng.choice([2, 3]), False)):
+                word, ss = word_on(line, k, distinct)
+                probes.append({"fn": "measure_line", "ops": word, "sites": ss})
     return probes
 
 
@@ -755,9 +775,16 @@ def check_metrics(ctx, recipe, psi, bonds, whichs):
             s0, s1 = tuple(b[0]), tuple(b[1])
             dirn = psi.nn_bond_dirn(s0, s1)
             case = {"kind": "metric", "recipe": recipe, "which": which, "bond": [list(s0), list(s1)]}
-            Q0, R0, Q1, R1 = qr_bond(psi, s0, s1, dirn)
-            G = env.bond_metric(Q0, Q1, s0, s1, dirn).g
-            nums = metric_numbers(G)
+            try:
+                Q0, R0, Q1, R1 = qr_bond(psi, s0, s1, dirn)
+                G = env.bond_metric(Q0, Q1, s0, s1, dirn).g
+                nums = metric_numbers(G)
+            except Exception as e:
+                from harness import core
+                if isinstance(e, core.CaseTimeout):
+                    raise
+                ctx.fail("oracle", "c12:ntu:raises", f"EnvNTU({which}).bond_metric on {b} raised {type(e).__name__}: {e}", case=case, concrete=True)
+                continue
             if nums is None:
                 ctx.fail("oracle", "c12:ntu:metric-shape", f"EnvNTU({which}).bond_metric on {b} is not a non-zero square matrix", case=case, concrete=True)
                 continue
@@ -785,9 +812,18 @@ def check_evolution(ctx, fam, recipe, psi, gate, which):
     exact.apply_gate_(real_gate(fam, gate))
     u = dense_of_peps(fam, exact)
     phi = psi.copy()
-    env = fpeps.EnvNTU(phi, which=which)
-    infos = fpeps.evolution_step_(env, [real_gate(fam, gate)], opts_svd={"D_total": BIG_D, "tol": 1e-14})
-    w = dense_of_peps(fam, phi)
+    try:
+        env = fpeps.EnvNTU(phi, which=which)
+        infos = fpeps.evolution_step_(env, [real_gate(fam, gate)], opts_svd={"D_total": BIG_D, "tol": 1e-14})
+        w = dense_of_peps(fam, phi)
+    except Exception as e:
+        from harness import core
+        if isinstance(e, core.CaseTimeout):
+            raise
+        ctx.fail("oracle", "c12:evolution:raises",
+                 f"evolution_step_ with non-binding truncation raised {type(e).__name__}: {e} ({recipe['family']} {recipe['dims']} gate {gate['g']} EnvNTU({which}))",
+                 case=case, concrete=True)
+        return 0
     defect = proportional_defect(u, w)
     ctx.count("compared")
     ctx.count(f"evolution:{which}")
@@ -875,10 +911,20 @@ def run_case(ctx, recipe, quick, rng, signs, probes_override=None):
     total = 0
     for kind in kinds:
         spec = env_spec(rng, kind, Nx, Ny)
-        env, reason = make_env(kind, psi, spec)
+        try:
+            env, reason = make_env(kind, psi, spec)
+        except core.CaseTimeout:
+            raise
+        except Exception as e:
+            ctx.fail("oracle", f"c12:{ENV_KEY[kind]}:setup:raises",
+                     f"setting up {kind} environment {spec} raised {type(e).__name__}: {e} ({recipe['family']} {recipe['dims']})",
+                     case={"kind": "setup", "recipe": recipe, "env": kind, "env_spec": spec}, concrete=True)
+            continue
         if env is None:
             ctx.count(f"skipped:{reason}")
             continue
+        if reason:
+            ctx.count(f"note:{reason}")
         ctx.count(f"env:{kind}:{'/'.join(f'{k}={v}' for k, v in sorted(spec.items()))}")
         for probe in plan_probes(rng, fam, kind, spec, Nx, Ny, quick, recipe):
             total += check_probe(ctx, fam, dense, v, recipe, kind, spec, env, probe, signs)
